@@ -149,10 +149,6 @@ struct Run {
       default: raw = "small"; return (int)r.below(3 * p);
     }
   }
-  std::string coef_sig(int coef, const std::string& raw) const {
-    unsigned v = D.norm(coef);
-    return std::string("coef=") + (v == 0 ? "zero" : v == 1 ? "one" : "other") + "/" + raw;
-  }
   // pick a present column, preferring zero / non-zero columns as requested (0: any, 1: prefer zero, 2: prefer non-zero)
   bool pick_col(unsigned& out, int prefer, long exclude = -1) {
     std::vector<unsigned> all, pref;
@@ -235,7 +231,7 @@ struct Run {
           bool ze = m->is_zero_entry(i, (unsigned)row);
           if (ze != (X.col[i][row] == 0))
             return fail("is_zero_entry", std::string(ze ? "zero_reported_for_nonzero_entry" : "nonzero_reported_for_zero_entry") +
-                                             ",row=" + (seen[row] ? "seen" : "fresh"),
+                                             (seen[row] ? "" : ",queried_row=fresh"),
                         "is_zero_entry(" + vh::str(i) + "," + vh::str(row) + ")=" + vh::str(ze));
         }
         if (report) c.count("cmp.is_zero_entry", (uint64_t)X.R);
@@ -326,7 +322,7 @@ struct Run {
 
     std::string opsig;
     Dense alt = D; bool has_alt = false;
-    const std::string pend = std::string(",lazy_pending=") + (pending ? "1" : "0");
+    const std::string pend = pending ? ",lazy_pending" : "";  // signatures only carry the corner flags that hold
     bool ok = true;
     auto guarded = [&](auto&& f) {
       try { f(); }
@@ -353,8 +349,8 @@ struct Run {
           if (!holes.empty() && r.chance(2, 3)) idx = r.pick(holes);
         }
       }
-      opsig = std::string("op=insert_column,") + (explicit_idx ? (idx == D.next ? "at=end_explicit" : "at=removed_index") : "at=end") +
-              (s.empty() ? ",col=empty" : ",col=nonempty") + pend;
+      opsig = std::string("op=insert_column") + (explicit_idx ? (idx == D.next ? ",at=end_explicit" : ",at=removed_index") : "") +
+              (s.empty() ? ",col=empty" : "") + pend;
       c.log("insert_column " + show_sparse(s) + (explicit_idx ? " at " + vh::str(idx) : ""));
       guarded([&] {
         if constexpr (!RA && !COMP) { if (explicit_idx) m->insert_column(in, idx); else m->insert_column(in); }
@@ -400,6 +396,10 @@ struct Run {
       const int kind = (op == ADD_I || op == ADD_R) ? 0 : (op == MTA_I || op == MTA_R) ? 1 : 2;
       static const char* kname[3] = {"add_to", "multiply_target_and_add_to", "multiply_source_and_add_to"};
       unsigned t; pick_col(t, (int)r.below(3));
+      if (!za.empty() && r.chance(1, 3)) {  // aim at a column holding a cell that was zeroed while already zero
+        auto it = za.begin(); std::advance(it, (long)r.below(za.size()));
+        if (it->first < D.present.size() && D.present[it->first]) t = it->first;
+      }
       int coef = 1; std::string raw = "none";
       if (kind != 0) coef = pick_coef(raw);
       unsigned cv = D.norm(coef);
@@ -422,8 +422,8 @@ struct Run {
         }
       }
       const bool tz = D.zero_col(t), sz = Dense::is_zero(src);
-      opsig = std::string("op=") + kname[kind] + ",src=" + srckind + (sz ? "/empty" : "/nonempty") + ",tgt=" + (tz ? "empty" : "nonempty") +
-              (kind ? "," + coef_sig(coef, raw) : "") + pend;
+      opsig = std::string("op=") + kname[kind] + (by_index ? "" : ",src=range") + (sz ? ",src=empty" : "") + (tz ? ",tgt=empty" : "") +
+              ((kind && cv == 0) ? ",coef=zero" : "") + (raw == "below-p" ? ",coef_below_minus_p" : "") + pend;
       c.log(std::string(kname[kind]) + " src=" + (srckind == "range_vector" ? std::string("range") : vh::str(sidx) + (range_is_column ? "(get_column)" : "")) +
             " coef=" + vh::str(coef) + " tgt=" + vh::str(t));
       guarded([&] {
@@ -487,7 +487,7 @@ struct Run {
           row = r.pick(nz);
         }
         bool absent = D.col[t][row] == 0;
-        opsig = std::string("op=zero_entry,entry=") + (absent ? "absent" : "present") + ",row=" + (seen[row] ? "seen" : "fresh") + pend;
+        opsig = std::string("op=zero_entry") + (absent ? ",entry=absent" : "") + (seen[row] ? "" : ",row=fresh") + pend;
         c.log("zero_entry col=" + vh::str(t) + " row=" + vh::str(row));
         guarded([&] { m->zero_entry(t, (unsigned)row); });
         if (!ok) return false;
@@ -498,7 +498,7 @@ struct Run {
     } else if (op == ZC) {
       if constexpr (!COMP) {
         unsigned t; pick_col(t, (int)r.below(3));
-        opsig = std::string("op=zero_column,col=") + (D.zero_col(t) ? "empty" : "nonempty") + pend;
+        opsig = std::string("op=zero_column") + (D.zero_col(t) ? ",col=empty" : "") + pend;
         c.log("zero_column " + vh::str(t));
         guarded([&] { m->zero_column(t); });
         if (!ok) return false;
@@ -527,12 +527,12 @@ struct Run {
           if (!nzr.empty()) a = r.pick(nzr);
         }
         bool beyond = (unsigned)std::max(a, b) >= D.count_present();
-        opsig = std::string("op=swap_rows,rows=") + ((seen[a] && seen[b]) ? "seen" : "fresh") + (a == b ? ",same_row" : "") +
-                (beyond ? ",row_index_ge_ncols" : ",row_index_lt_ncols") + pend;
+        opsig = std::string("op=swap_rows") + ((seen[a] && seen[b]) ? "" : ",row=fresh") + (beyond ? ",row_index_ge_ncols" : "") + pend;
         c.log("swap_rows " + vh::str(a) + " " + vh::str(b));
         guarded([&] { m->swap_rows((unsigned)a, (unsigned)b); });
         if (!ok) return false;
         D.swap_rows(a, b);
+        std::swap(seen[a], seen[b]);  // what the matrix knows about a row index travels with the row
         za.clear();
         pending = true;
         c.count("op.swap_rows"); kinds.insert("swr");
